@@ -289,11 +289,19 @@ impl<'a> Parser<'a> {
             "null" => Ok(Value::Null),
             "true" => Ok(Value::Bool(true)),
             "false" => Ok(Value::Bool(false)),
-            number => Ok(Value::Number(
-                number
-                    .parse()
-                    .map_err(|_| self.traceback(ParseError::InvalidToken))?,
-            )),
+            number => {
+                // `f64::from_str` accepts more than the JSON grammar (`NaN`, `inf`, `+1`, `01`, `.5`, `1.`)
+                quiet_assert(
+                    is_json_number(number),
+                    self.traceback(ParseError::InvalidToken),
+                )?;
+
+                Ok(Value::Number(
+                    number
+                        .parse()
+                        .map_err(|_| self.traceback(ParseError::InvalidToken))?,
+                ))
+            }
         }
     }
 
@@ -343,6 +351,52 @@ fn is_whitespace(c: impl Borrow<char>) -> bool {
 }
 
 /// Check whether the character is reserved.
+/// Checks the string against the number grammar of RFC 8259 section 6:
+///   `[ "-" ] ( "0" / digit1-9 *DIGIT ) [ "." 1*DIGIT ] [ ( "e" / "E" ) [ "-" / "+" ] 1*DIGIT ]`.
+fn is_json_number(s: &str) -> bool {
+    fn digits(bytes: &[u8], mut i: usize) -> usize {
+        while i < bytes.len() && bytes[i].is_ascii_digit() {
+            i += 1;
+        }
+        i
+    }
+
+    let bytes = s.as_bytes();
+    let mut i = 0;
+
+    if bytes.first() == Some(&b'-') {
+        i += 1;
+    }
+
+    match bytes.get(i) {
+        Some(b'0') => i += 1,
+        Some(b'1'..=b'9') => i = digits(bytes, i),
+        _ => return false,
+    }
+
+    if bytes.get(i) == Some(&b'.') {
+        let end = digits(bytes, i + 1);
+        if end == i + 1 {
+            return false;
+        }
+        i = end;
+    }
+
+    if matches!(bytes.get(i), Some(b'e' | b'E')) {
+        i += 1;
+        if matches!(bytes.get(i), Some(b'+' | b'-')) {
+            i += 1;
+        }
+        let end = digits(bytes, i);
+        if end == i {
+            return false;
+        }
+        i = end;
+    }
+
+    i == bytes.len()
+}
+
 fn is_literal(c: impl Borrow<char>) -> bool {
     let c = c.borrow();
     !is_whitespace(c) && *c != ',' && *c != '}' && *c != ']'
